@@ -35,7 +35,12 @@ try:
     shutil.copy(demo, demodst)
     rc, out = sh("go test -vet=off -count=1 -run '%s' %s" % (runre, pkg), cwd=wt); rec("demo on unmodified tree", rc, out); ok = rc == 0
     os.remove(demodst)
-    rc, out = sh("git apply " + patch, cwd=wt); rec("git apply", rc, out); ok &= rc == 0
+    rc, out = sh("git apply " + patch, cwd=wt); rec("git apply", rc, out)
+    if rc != 0 and sys.argv[1] == "--again":
+        # the tree has moved on since the change was written (a later fix: commit): keep the recorded result
+        print(sid, "SKIPPED: patch was written for", m0.get("base_commit"), "and does not apply to the current tree")
+        sys.exit(0)
+    ok &= rc == 0
     rc, out = sh("go build ./... && go test -vet=off -count=1 ./...", cwd=wt); rec("build + unedited suite with the change", rc, out); ok &= rc == 0
     shutil.copy(demo, demodst)
     rc, out = sh("go test -vet=off -count=1 -run '%s' %s" % (runre, pkg), cwd=wt); rec("demo with the change", rc, out); ok &= rc != 0
